@@ -113,15 +113,53 @@ def spart_objs(cs):
     return [c for c in cs if w(c) == 1.0] + [c for c in cs if w(c) != 1.0]
 
 
+def container_members(obj):
+    """names of all list-valued members, own and inherited (document level <property> comes from Standalone)"""
+    seen, out = set(), []
+    for cls in type(obj).__mro__:
+        for m in getattr(cls, "member_data_items_", None) or []:
+            nm = m.get_name()
+            if m.get_container() and nm not in seen and isinstance(getattr(obj, nm, None), list):
+                seen.add(nm)
+                out.append(nm)
+    return out
+
+
+def referenced_ids(doc):
+    """ids of top-level components the networks refer to (the loader appends those first, so their position inside
+    their member list may change; everything else must keep its order)"""
+    ids = set()
+    for n in doc.networks:
+        for p in n.populations:
+            ids.add(p.component)
+        for p in n.projections:
+            ids.add(p.synapse)
+        for p in n.electrical_projections:
+            for c in list(p.electrical_connections) + list(p.electrical_connection_instances) + list(p.electrical_connection_instance_ws):
+                ids.add(c.synapse)
+        for p in n.continuous_projections:
+            for c in list(p.continuous_connections) + list(p.continuous_connection_instances) + list(p.continuous_connection_instance_ws):
+                ids.add(c.pre_component)
+                ids.add(c.post_component)
+        for l in n.input_lists:
+            ids.add(l.component)
+    ids.discard(None)
+    return ids
+
+
 def sem_doc(doc):
-    top = []
-    for m in type(doc).member_data_items_:
-        nm = m.get_name()
-        if nm in ("networks", "includes") or not m.get_container():
+    """top: per member list, the exported XML of every entry -- 'all' as a sorted multiset, 'order' as the sequence of the
+    entries the networks do not refer to"""
+    ref = referenced_ids(doc)
+    top = {}
+    for nm in container_members(doc):
+        if nm in ("networks", "includes"):
             continue
-        for e in getattr(doc, nm):
-            top.append([nm, xml_of(e)])
-    top.sort()
+        entries = getattr(doc, nm)
+        if not entries:
+            continue
+        xs = [(getattr(e, "id", None), xml_of(e)) for e in entries]
+        top[nm] = {"count": len(xs), "all": sorted(x for _, x in xs), "order": [x for i, x in xs if i is None or i not in ref]}
     return {"id": doc.id, "notes": doc.notes, "top": top,
             "annotation": xml_of(doc.annotation) if doc.annotation is not None else None,
             "networks": dict((n.id, sem_network(n)) for n in doc.networks), "n_networks": len(doc.networks)}
@@ -195,6 +233,8 @@ def build_doc(spec):
     doc = neuroml.NeuroMLDocument(id=spec["id"], notes=spec.get("notes"))
     if spec.get("annotation"):
         doc.annotation = neuroml.Annotation()
+    for t, v in spec.get("properties", []):
+        doc.properties.append(neuroml.Property(tag=t, value=v))
     for comp in spec.get("components", []):
         cls = getattr(neuroml, comp["cls"])
         obj = cls(**comp["args"])
